@@ -506,3 +506,80 @@ func VH22h_inproc_two_addresses() {
 	verif.Quiesce()
 	verif.Assert(verif.LiveGoroutines() == 0, "C10/inproc/goroutines-left-after-close")
 }
+
+// VH22i_inproc_listener_gone: a dialer's connection attempt over inproc is
+// waiting because the listener is busy (its accept loop sits in the Attaching
+// hook of an earlier connection) when the listening socket is closed. The
+// attempt must end (it is not left waiting on a listener that no longer
+// exists), and once another socket listens on the same address the dialer
+// connects to it on a later attempt and traffic flows -- whether the dial was
+// synchronous or asynchronous, and whether the replacement listener appears
+// before or after the old one has gone.
+func VH22i_inproc_listener_gone() {
+	lab := "C14/inproc-listener-gone"
+	addr := "inproc://gone"
+	gate := make(chan struct{})
+	held := 0
+	l1 := vp.New("pair")
+	l1.SetPipeEventHook(func(ev mangos.PipeEvent, p mangos.Pipe) {
+		if ev == mangos.PipeEventAttaching && held == 0 {
+			held++
+			<-gate
+		}
+	})
+	verif.Assert(l1.Listen(addr) == nil, lab+"/listen")
+	verif.Quiesce()
+	first := vp.New("pair")
+	verif.Assert(first.Dial(addr) == nil, lab+"/first-dial")
+	verif.Quiesce()
+	// the second dialer has to wait: nobody is accepting
+	d := vp.New("pair")
+	asynch := verif.Choice("asynch", 2) == 1
+	verif.Assert(d.SetOption(mangos.OptionDialAsynch, asynch) == nil, lab+"/asynch")
+	var derr error
+	dg := verif.Go("dial", func() { derr = d.Dial(addr) })
+	verif.Quiesce()
+	if !asynch {
+		verif.Assert(!dg.Done(), lab+"/dial-completed-although-nobody-accepts")
+	}
+	// the listening socket goes away while the attempt is waiting
+	cg := verif.Go("close-listener", func() { l1.Close() })
+	verif.Quiesce()
+	close(gate)
+	verif.Quiesce()
+	verif.Assert(cg.Done(), lab+"/close-of-the-listening-socket-blocks")
+	verif.Assert(dg.Done(), lab+"/dial-left-waiting-on-a-listener-that-is-gone")
+	if !dg.Done() {
+		return
+	}
+	if !asynch {
+		verif.Assert(derr != nil, lab+"/synchronous-dial-reports-success-without-a-connection")
+	}
+	// a replacement listener on the same address
+	l2 := vp.New("pair")
+	verif.Assert(l2.Listen(addr) == nil, lab+"/address-not-free-after-the-listener-was-closed")
+	verif.Quiesce()
+	if !asynch {
+		// the application tries again
+		verif.Assert(d.Dial(addr) == nil, lab+"/second-dial")
+		verif.Quiesce()
+	} else {
+		for i := 0; i < 4; i++ {
+			if !verif.FireTimer() {
+				break
+			}
+		}
+	}
+	var got []byte
+	var rerr error
+	rg := verif.Go("recv", func() { got, rerr = l2.Recv() })
+	sg := verif.Go("send", func() { d.Send([]byte{'h', 'i'}) })
+	verif.Quiesce()
+	verif.Assert(sg.Done() && rg.Done() && rerr == nil && len(got) == 2 && got[0] == 'h', lab+"/dialer-never-connected-to-the-replacement-listener")
+	verif.Reach("reconnected-to-replacement")
+	for _, s := range []mangos.Socket{first, d, l2} {
+		s.Close()
+	}
+	verif.Quiesce()
+	verif.Assert(verif.LiveGoroutines() == 0, "C10/inproc/goroutines-left-after-close")
+}
